@@ -46,6 +46,7 @@ Verdict(e) ==
       [] e.fn = "funfit" -> V_funfit(e)
       [] e.fn = "rfa_rel" -> V_rfa_rel(e)
       [] e.fn = "match" -> V_match(e)
+      [] e.fn = "stretch_private" -> V_stretch_private(e)
       [] e.fn = "pipeline" -> V_pipeline(e)
       [] e.fn = "whist" -> V_whist(e)
       [] e.fn = "wrestore" -> V_wrestore(e)
